@@ -340,6 +340,7 @@ LEVEL_TEXT = (
     "Bounded-exhaustive enumeration of (constraint x class x order x n_f = 3..6): every sum rule (Adler, GLS, Bjorken, light-by-light piece), every NLO closed form (F2, FL, F3, g1, g4, gL quark and gluon; "
     "point-wise on a 41-point z lattice and on 8 integer and real Mellin moments) and every documented inter-class identity is evaluated on the real coefficient-function objects with the reference quadrature "
     "(explicit plus prescription, delta = loc(0)) and compared with independently written textbook expressions / series coefficients."
+    " The same sum rules are also evaluated, per parton, on the kernels the engine assembles (weights x classes from Combiner.collect_elems) for the beam pairs (neutrino, antineutrino) and (electron, positron) at n_f = 3..6; thorough adds a 285-point z lattice and 60 moments."
 )
 LEVEL_NOTE = (
     "Trusted: ref_nlo (my transcription of the textbook NLO coefficient functions and of the Larin-Vermaseren series), SciPy quad. z and N outside the lattices are not covered; NNLO/N3LO pieces are "
